@@ -36,6 +36,101 @@ def parseVersion (s : String) : Nat × Nat × Nat :=
   | [a, b, c] => (a.toNat?.getD 0, b.toNat?.getD 0, c.toNat?.getD 0)
   | _ => (0, 0, 0)
 
+/-! ### free text and byte payloads on the wire (see `harness/src/common.rs`) -/
+
+def hexVal (c : Char) : Option Nat :=
+  if '0' ≤ c && c ≤ '9' then some (c.toNat - '0'.toNat)
+  else if 'a' ≤ c && c ≤ 'f' then some (c.toNat - 'a'.toNat + 10)
+  else if 'A' ≤ c && c ≤ 'F' then some (c.toNat - 'A'.toNat + 10)
+  else none
+
+def hexDigit (n : Nat) (upper : Bool := false) : Char :=
+  if n < 10 then Char.ofNat ('0'.toNat + n)
+  else Char.ofNat ((if upper then 'A'.toNat else 'a'.toNat) + (n - 10))
+
+/-- Percent-decoding on bytes (a `%` not followed by two hex digits stays). -/
+def pctDecodeBytes : List UInt8 → List UInt8
+  | 37 :: h :: l :: rest =>
+    match hexVal (Char.ofNat h.toNat), hexVal (Char.ofNat l.toNat) with
+    | some x, some y => UInt8.ofNat (16 * x + y) :: pctDecodeBytes rest
+    | _, _ => 37 :: pctDecodeBytes (h :: l :: rest)
+  | b :: rest => b :: pctDecodeBytes rest
+  | [] => []
+
+/-- `text_dec`: `empty` is the empty string, otherwise percent-decoded UTF-8. -/
+def textDec (s : String) : String :=
+  if s == "empty" then "" else
+  (String.fromUTF8? (ByteArray.mk (pctDecodeBytes s.toUTF8.toList).toArray)).getD ""
+
+/-- `text_enc` -/
+def textEnc (s : String) : String :=
+  if s == "" then "empty" else if s == "empty" then "%65mpty" else
+  String.ofList (s.toUTF8.toList.flatMap fun b =>
+    let c := Char.ofNat b.toNat
+    if c.isAlphanum || c == '_' || c == '.' then [c]
+    else ['%', hexDigit (b.toNat / 16) true, hexDigit (b.toNat % 16) true])
+
+def optTextEnc : Option String → String
+  | none => "-"
+  | some s => textEnc s
+
+def hexBytes : List Char → List Nat
+  | h :: l :: rest =>
+    match hexVal h, hexVal l with
+    | some x, some y => (16 * x + y) :: hexBytes rest
+    | _, _ => hexBytes rest
+  | _ => []
+
+/-- `parse_payload`: hex, then `.<bb>x<n>` padding segments. -/
+def parsePayload (s : String) : Bytes :=
+  match s.splitOn "." with
+  | [] => []
+  | first :: segs =>
+    hexBytes first.toList ++ segs.flatMap fun seg =>
+      match seg.splitOn "x" with
+      | [b, n] =>
+        match hexBytes b.toList, n.toNat? with
+        | [v], some k => List.replicate k v
+        | _, _ => hexBytes seg.toList
+      | _ => hexBytes seg.toList
+
+def hexOf (d : Bytes) : String :=
+  String.ofList (d.flatMap fun b => [hexDigit (b / 16), hexDigit (b % 16)])
+
+def fnv64 (d : Bytes) : UInt64 :=
+  d.foldl (fun h b => (h ^^^ UInt64.ofNat b) * 0x100000001b3) 0xcbf29ce484222325
+
+/-- `render_data`: hex up to 48 bytes, else `#<len>.<fnv1a-64>`. -/
+def renderData (d : Bytes) : String :=
+  if d.length ≤ 48 then hexOf d
+  else
+    let h := (fnv64 d).toNat
+    s!"#{d.length}." ++ String.ofList ((List.range 16).reverse.map fun i => hexDigit ((h / 16 ^ i) % 16))
+
+def parseLogo (kind val : String) : Option Logo :=
+  match kind with
+  | "url" => some (.url (textDec val))
+  | "svg" => some (.svg (parsePayload val))
+  | "png" => some (.png (parsePayload val))
+  | _ => none
+
+/-- The marketing address argument: `-` absent, `empty` the empty string, else `+addr` / `-text`. -/
+def parseMAddr (a : Args) (k : String) : Option AddrArg :=
+  (a.optStr k).map fun t =>
+    if t == "empty" then ⟨false, ""⟩ else let p := parseAddr t; ⟨p.1, textDec p.2⟩
+
+def renderMinfo (m : MarketingInfo) : String :=
+  let logo := match m.logo with
+    | none => "-"
+    | some .embedded => "embedded"
+    | some (.url u) => s!"url:{textEnc u}"
+  s!"{optTextEnc m.project};{optTextEnc m.description};{optTextEnc m.marketing};{logo}"
+
+def renderDownload (r : Res (String × Bytes)) : Res String :=
+  r.map fun (mime, d) =>
+    let m := if mime == "image/svg+xml" then "svg" else if mime == "image/png" then "png" else textEnc mime
+    s!"{m}:{renderData d}"
+
 def parseMsg (kind : String) (a : Args) : Option Msg :=
   let amt := a.nat "amt"
   match kind with
@@ -49,6 +144,11 @@ def parseMsg (kind : String) (a : Args) : Option Msg :=
   | "transfer_from" => some (.transferFrom (addrArg (a.str "owner")) (addrArg (a.str "to")) amt)
   | "burn_from" => some (.burnFrom (addrArg (a.str "owner")) amt)
   | "send_from" => some (.sendFrom (addrArg (a.str "owner")) (addrArg (a.str "contract")) amt (a.str "payload"))
+  | "marketing" =>
+    some (.updateMarketing ((a.optStr "project").map textDec) ((a.optStr "description").map textDec)
+      (parseMAddr a "marketing"))
+  | "logo" =>
+    (["url", "svg", "png"].findSome? fun k => (a.get k).bind (parseLogo k)).map .uploadLogo
   | _ => none
 
 def renderOut (o : Out) : String := s!"recv/{o.contract}/{o.sender}/{o.amount}/{o.payload}"
@@ -79,7 +179,9 @@ def obsOf (m : MState) : Args :=
      ("bal", joinC bals),
      ("allow", joinC (sortStrings allow)),
      ("allowsp", joinC (sortStrings allowsp)),
-     ("pallow", joinC (sortStrings pallow))]
+     ("pallow", joinC (sortStrings pallow)),
+     ("minfo", renderMinfo (queryMarketingInfo s)),
+     ("logo", match renderDownload (queryDownloadLogo s) with | .ok v => v | .error _ => "err")]
 
 def err (m : MState) (tag : String) : MState × StepResult := (m, { ok := some false, tag := tag })
 
@@ -92,7 +194,15 @@ def stepOp (m : MState) (toks : List String) : MState × StepResult :=
     let a := args rest
     let initial := (a.list "bal").map fun e => let p := parsePair e; (addrArg p.1, p.2)
     let mint := (a.optStr "mint").map fun mm => (addrArg mm, a.optNat "cap")
-    let msg : InstMsg := { name := a.str "name", symbol := a.str "sym", decimals := a.nat "dec", initial, mint }
+    let marketing : Option InstMarketing := (a.optStr "mkt").map fun _ =>
+      { project := (a.optStr "mproject").map textDec, description := (a.optStr "mdesc").map textDec,
+        marketing := (a.optStr "maddr").map fun t => let p := parseAddr t; ⟨p.1, textDec p.2⟩,
+        logo := (a.optStr "mlogo").bind fun l =>
+          match l.splitOn ":" with
+          | k :: rest => parseLogo k (":".intercalate rest)
+          | [] => none }
+    let msg : InstMsg := { name := a.str "name", symbol := a.str "sym", decimals := a.nat "dec", initial, mint,
+                           marketing }
     match m.st with
     | some _ => err m "inst.twice"
     | none =>
@@ -121,16 +231,14 @@ def stepOp (m : MState) (toks : List String) : MState × StepResult :=
     match m.st with
     | none => err m "uninit"
     | some s =>
-      if kind == "marketing" || kind == "logo" then (m, { ok := none, tag := kind })
-      else
-        match parseMsg kind (args rest) with
-        | none => err m "badop"
-        | some msg =>
-          match execute s m.blk snd msg with
-          | .ok (s', out) =>
-            ({ m with st := some s' },
-             { ok := some true, out := [("msgs", ";".intercalate (out.map renderOut))], tag := s!"{kind}.ok" })
-          | .error e => err m s!"{kind}.{e}"
+      match parseMsg kind (args rest) with
+      | none => err m "badop"
+      | some msg =>
+        match execute s m.blk snd msg with
+        | .ok (s', out) =>
+          ({ m with st := some s' },
+           { ok := some true, out := [("msgs", ";".intercalate (out.map renderOut))], tag := s!"{kind}.ok" })
+        | .error e => err m s!"{kind}.{e}"
   | "query" :: kind :: rest =>
     let a := args rest
     match m.st with
@@ -144,6 +252,8 @@ def stepOp (m : MState) (toks : List String) : MState × StepResult :=
         | "all_allowances" => (queryOwnerAllowances s (addrArg (a.str "owner")) after limit).map renderListing
         | "all_spender_allowances" => (querySpenderAllowances s (addrArg (a.str "spender")) after limit).map renderListing
         | "balance" => (queryBalance s (addrArg (a.str "address"))).map toString
+        | "marketing_info" => .ok (renderMinfo (queryMarketingInfo s))
+        | "download_logo" => renderDownload (queryDownloadLogo s)
         | _ => .error "badquery"
       match r with
       | .ok v => (m, { ok := some true, out := [("result", v)], tag := s!"q.{kind}.ok" })
